@@ -430,7 +430,7 @@ def inv_N(V):
 
 def InvAll(V):    # noqa: F811
     return (InvP(V) + inv_blobs(V) + inv_rows_aligned(V) + inv_config(V) +
-            inv_N(V))
+            inv_N(V) + inv_A(V))
 
 
 def inv_phase(V):
